@@ -37,6 +37,52 @@ def lagrange_found_flag(ctx):
     return False
 
 
+def agg_identifier_sets(ctx):
+    """aggregate_custom: the identifiers under which shares are filed must be exactly the package's signer set — a share
+    filed under another identifier (its sum contribution unchanged) must be refused.  commitment keys ⊆ share keys by the
+    all(..) pre-check in every detection mode; equality of sizes gives the other inclusion."""
+    P = ctx.prog
+    f = ctx.anchor(CORE + "aggregate_custom")
+    if not f:
+        return
+    v = FnView.get(P, f)
+    refusal(ctx, f, "SEP", "G-ids:|commitments|==|shares|",
+            [("len!=len", cmp_fact("eq", length(fld(arg(1), "signing_commitments")), length(arg(2)), False))], ok_sinks(f))
+    def allf(fa):
+        if not (fa[0] == "cond" and fa[1] == "all" and is_call(fa[2], name="keys") and fld(arg(1), "signing_commitments")(fa[2][2][0])
+                and fa[3] is not None and fa[3][0] == "closure"):
+            return None
+        return "pass" if fa[4] else "fail"
+    ok = refusal(ctx, f, "SEP", "G-ids:every-signer-has-a-share(all)", [("keys().all(..)", allf)], ok_sinks(f))
+    if not ok:
+        return
+    clos = [fa[3] for (e, fa) in v.facts if allf(fa)]
+    good = bool(clos)
+    for c in clos:
+        cf = P.fns.get(c[1])
+        if not cf or ("arg", 2) not in c[2]:
+            good = False
+            continue
+        idx = c[2].index(("arg", 2))
+        vc = FnView.get(P, cf)
+        shares = lambda t: t == ("field", ("arg", 1), None, str(idx))
+        has = lambda t: is_call(t, name="contains_key") and shares(t[2][0]) and t[2][1] == ("arg", 2)
+        true_edges = {e for (e, fa) in vc.facts if fa[0] == "cond" and fa[1] == "contains" and shares(fa[2]) and fa[3] == ("arg", 2) and fa[4]}
+        reach = cf.reach(0, removed=frozenset(true_edges))
+        for (b, k, w) in ret_writes(cf):
+            if k == "call":
+                t = vc.cx.call(w, (cf.key, b))
+                if has(t):
+                    continue
+            elif k == "other" and w.get("k") == "use" and w["op"].get("const", {}).get("bits") == "0":
+                continue
+            if b in reach:
+                good = False
+    ctx.check(good, "PROV", f.key, "G-ids:all-closure-implies-share-present",
+              "in some cheater-detection mode the identifier pre-check of aggregate_custom can succeed for a signer whose "
+              "identifier has no share filed under it: a share claimed under another identifier would be aggregated", f.loc)
+
+
 def run(ctx):
     ctx.decided = ("the signer refuses when its own entry is missing (any of three mechanisms) or differs from the "
                    "commitments of the nonces it is given (sole check), before nonces/share are used; a package with an "
@@ -167,6 +213,7 @@ def run(ctx):
                   "neither the explicit comparison in compute_group_commitment nor the serialisation of every %s "
                   "element in encode_group_commitments (on every role's path) rejects it" % (which, which),
                   gc.loc if gc else None, {"explicit": A[which], "encoding": B[which]})
+    agg_identifier_sets(ctx)
     # no cached session state
     st = [s for s in P.statics if s["crate"].startswith("frost")]
     ctx.check(not st, "TAB", "workspace", "no-statics",
